@@ -504,10 +504,10 @@ def _producers():
 
     def saveload(ext, mk):
         def f():
-            d = tempfile.mkdtemp(prefix="c06_")
-            p = os.path.join(d, "m." + ext)
-            M.mesh.save(mk(), p)
-            return M.mesh.load(p)
+            with tempfile.TemporaryDirectory(prefix="c06_") as d:
+                p = os.path.join(d, "m." + ext)
+                M.mesh.save(mk(), p)
+                return M.mesh.load(p)
         return f
     prods = {
         "ring-open": lambda: P.ring(5, 0.3, open=True), "ring-closed": lambda: P.ring(5, 0.3, open=False),
